@@ -166,7 +166,10 @@ def make_ctor(height, prop="C19"):
             E.acc.count("refused:" + type(ex).__name__)
             return
         try:
-            s.stacks_top[0] = height - 1  # the highest level must be representable by the pointer's dtype
+            levels = len(s.shr_domains_stack)
+            if not (len(s.not_entailed_propagators_stack) == len(s.dom_update_stack) == levels):
+                _record(E, prop, "stacks-of-different-heights", "BacktrackSolver.__init__", "the three stacks differ in height", height=height)
+            s.stacks_top[0] = levels - 1  # the highest ALLOCATED level must be representable by the pointer's dtype
             E.acc.count("accepted")
         except Obligation as o:
             E.acc.count("obligation:" + o.kind)
